@@ -278,9 +278,6 @@ class AbstractDateTime(AnyAtomicType):
                 case ('dateTime', 'date') | ('date', 'dateTime'):
                     if op is not operator.eq:
                         raise TypeError("wrong type %r for operand %r" % (type(other), other))
-                case ('gYear' | 'gYearMonth' | 'gMonth' | 'gMonthDay' | 'gDay', _):
-                    if op is not operator.eq:
-                        raise TypeError("the values of type %r are not ordered" % self.name)
 
             dt, year = other._dt, other._year
         elif op is operator.eq:
